@@ -627,3 +627,15 @@ def safe_mval(orig):
         return 0.0
 
   return mval
+
+
+def prove_nice(ctx, sess, name, goal, guard=True, nice=(), **kw):
+  """prove guard => goal.  If a counterexample exists inside the well-conditioned region `nice` (a list of extra constraints:
+  time step not tiny, scale 1/2, velocities of order one, unit quaternion ...) the query is issued with that region as guard, so that
+  the model handed to the replay is visible in float32; otherwise the general query is issued (and must be unsat)."""
+  g2 = core.And(guard, *nice)
+  if nice:
+    r = sess.prove(name + "#nice-probe", goal, g2)
+    if r.status == "sat":
+      return ctx.prove(sess, name, goal, g2, **kw)
+  return ctx.prove(sess, name, goal, guard, **kw)
